@@ -208,6 +208,8 @@ def handle_failure(spec, case, ob, r, status, solver, model_vals, detail, full, 
             if not any(k["id"] == f["id"] for k in rep.known):
                 rep.known.append(f)
             rep.obligations -= 1
+            if spec.level == "B":
+                rep.bounded_obligations -= 1
             return
     replay["confirmed_on_real_code"] = confirmed
     rep.violations.append(replay)
